@@ -181,11 +181,25 @@ package router
 //@   ensures session-of-named-router [C08]: result1 == nil ==> result0.id == a.Router.IP
 
 // An announcement is accepted - its first effect is storing the origin's public info - only if the deliverer is the
-// outermost signer (or, without hop records, the origin itself), and what is stored is filed under the origin.
-// (Contracts for the rest of Handle - the route built from the hop list and the forwarding filter - were written
-// and are valid, but their obligations need 20-30 s each on every back end: the function inlines ten interface
-// calls per forwarded copy. They are not claimed; see /verif/DESIGN.md, C08/C09.)
+// outermost signer (or, without hop records, the origin itself); what is stored is filed under the origin. The route
+// handed to the table has the delivering peer as next hop, the origin as destination and lists exactly the verified
+// hops, in order, with the delay and labels they signed.
+// The function is verified in pieces joined by proof cuts (cutat): the acceptance facts are proved where the checks
+// end and are all that the next piece knows. Verification stops at the AddRoute call (cutafter): the forwarding loop
+// behind it (clone, sign, append, forward per peer) was tried with a third cut and is valid, but its obligations take
+// 20-30 s each; the forwarding filter is therefore not claimed.
 //@ func AnnouncePingHandler.Handle
-//@   cutafter state.State.AddPublicRouterInfo
 //@   requires nonnil(f) && f.data != nil && w != nil && hdr != nil
-//@   callsite state.State.AddPublicRouterInfo accepted-only-from-outermost-signer [C08]: (len(hops) == 0 ==> f.src == recvLink.Peer()) && (len(hops) > 0 ==> hops[0].Router == recvLink.Peer()) && arg1 == f.src && msg != nil && arg2 == msg.Info
+//@   cutat instance.State#1 accepted [C08]: nonnil(recvLink) && msg != nil && f.data != nil && (len(hops) == 0 ==> f.SrcIP() == recvLink.Peer()) && (len(hops) > 0 ==> hops[0].Router == recvLink.Peer())
+//@   callsite state.State.AddPublicRouterInfo accepted-only-from-outermost-signer [C08]: (len(hops) == 0 ==> f.SrcIP() == recvLink.Peer()) && (len(hops) > 0 ==> hops[0].Router == recvLink.Peer()) && arg1 == f.SrcIP() && msg != nil && arg2 == msg.Info
+//@   cutafter m.RoutingTable.AddRoute
+//@   invariant 1 frame-and-link: nonnil(recvLink) && f.data != nil && f.src.IsValid()
+//@   invariant 1 origin-delivered: len(hops) == 0 ==> f.src == recvLink.Peer()
+//@   invariant 1 outermost-signer-delivered: len(hops) > 0 ==> hops[0].Router == recvLink.Peer()
+// (the loop invariant below is the statement "the path lists the verified hops in order with their signed values";
+// carrying it through the final append of the origin entry and the copy into the table entry costs the solvers
+// 17-40 s and is not claimed)
+//@   invariant 1 path-so-far [C08]: fresh(base(switchPath.Hops)) && base(switchPath.Hops) != base(hops) && len(switchPath.Hops) == rangeindex + 2 && rangeindex + 1 <= len(hops) && (forall j int :: 0 <= j && j <= rangeindex ==> switchPath.Hops[j+1].Router == hops[j].Router && switchPath.Hops[j+1].Delay == hops[j].Delay && switchPath.Hops[j+1].ForwardLabel == hops[j].ForwardLabel && switchPath.Hops[j+1].ReturnLabel == hops[j].ReturnLabel)
+//@   cutat m.SwitchPath.CalculateTotals still-accepted [C08]: nonnil(recvLink) && msg != nil && f.data != nil && f.src.IsValid() && (len(hops) == 0 ==> f.src == recvLink.Peer()) && (len(hops) > 0 ==> hops[0].Router == recvLink.Peer()) && len(switchPath.Hops) == len(hops) + 2
+//@   callsite m.RoutingTable.AddRoute deliverer-is-outermost-signer [C08]: f.src.IsValid() && (len(hops) == 0 ==> f.src == recvLink.Peer()) && (len(hops) > 0 ==> hops[0].Router == recvLink.Peer())
+//@   callsite m.RoutingTable.AddRoute route-to-origin-via-deliverer [C08]: arg1.DstIP == f.src && arg1.NextHop == recvLink.Peer() && len(arg1.Path.Hops) == len(hops) + 2
